@@ -49,6 +49,7 @@ RULE = ('cases = (a) enumerated fill patterns: quick = every pattern of every sh
         'in-memory pointer arithmetic of sparse_utils (merge_csr, load_csr/csc/csr_chunk). '
         'non-trivial = >=2 stored entries AND the expected result differs from the input arrays (an identity copy would be wrong) '
         '[HDF5 copy: >=1 chunked dataset copied in >=2 hyperslabs]; distinct = distinct spec hash')
+RULE += '; additions: matrices of ~300x300 with more than 65 535 entries, stacking with several selections from one file and from both matrices (X / layer) of one file, direct stacking of CSR piece files whose index arrays have any integer width'
 ASSUMPTIONS = ['inputs are canonical compressed matrices (sorted, duplicate-free indices) as scipy/anndata write them; every dimension >= 1',
                'row / column selections are non-empty and duplicate-free; shuffle orders are permutations of all rows',
                'subset_csc_h5ad_columns is documented to return the chosen columns in ascending order; the oracle sorts them',
